@@ -1040,7 +1040,10 @@ def eval_history(ctx, st, case, r, items, imeta):
                 elif s['ret']['betas'] != want:
                     st.disagree(wit, {'file': sorted(pk)[-1], 'betas': want}, s['ret'], 'recycled file is not the last candidate')
             else:
-                exp = 'any'
+                # nothing to recycle: the model is estimated and saved as by estimate()
+                exp = [(M, 'html', None), (M, 'pickle', None)]
+                for f in model_pickles(M, new):
+                    pk_content[cur[f][0]] = s['ret']['betas']
         elif k == 'validate':
             exp = []
             for i in (1, 2):
